@@ -193,6 +193,10 @@ pub fn build_case(rng: &mut Rng, index: u64) -> Case {
         steps.push(Step { main: vec![Item::Form(main_form)], twin: twin_items, compare: false, label: "failing-form" });
     }
     // probes: state, procedures, a later failure (for its stack trace), ordinary expressions
+    // directly after the failures: a form the compiler rejects and a text the reader rejects; their
+    // failure and the stack trace reported with it (none) must not depend on what failed before
+    let early = if rng.bool() { Item::Form(parse_forms("(if)").remove(0)) } else { Item::Text((*rng.pick(&[")", "(car '(1)", "#<oops>"])).to_string()) };
+    steps.push(Step { main: vec![early.clone()], twin: vec![early], compare: true, label: "probe" });
     let state_probe = gen::call("list", all_gvars.iter().map(|g| gen::sym(g)).collect());
     let mut probes = vec![state_probe];
     for p in &procs {
@@ -340,6 +344,15 @@ pub fn check_case(case: &Case, rep: &mut Report, id: (u64, u64), verbose: bool) 
                     rep.violation(
                         &format!("later-outcome-differs:{}:{}", kind_tag, shape_tag),
                         format!("step {} ({}) {}: after the failures {} but in the twin (effects only) {}", si, s.label, a.text.chars().take(200).collect::<String>(), show_outcome(&a.form.outcome), show_outcome(&b.form.outcome)),
+                        witness(case),
+                        id,
+                    );
+                    return false;
+                }
+                if failures_seen > 0 && a.trace.is_some() != b.trace.is_some() {
+                    rep.violation(
+                        &format!("stack-trace-differs:{}", if a.trace.is_some() { "stale-trace-reported" } else { "trace-missing" }),
+                        format!("step {} {} fails in both VMs, but last_stacktrace() is {:?} after the failures and {:?} in the twin", si, a.text.chars().take(120).collect::<String>(), a.trace.as_ref().map(|t| t.iter().take(6).collect::<Vec<_>>()), b.trace.as_ref().map(|t| t.iter().take(6).collect::<Vec<_>>())),
                         witness(case),
                         id,
                     );
